@@ -9,6 +9,7 @@ import XotModel.Driver.Compare
 import XotModel.Driver.Forest
 import XotModel.Driver.IdMap
 import XotModel.Driver.Axes
+import XotModel.Driver.Output
 
 open XotModel.Driver
 
@@ -20,6 +21,7 @@ def dispatch (st : DState) (line : String) : DState × String :=
   | "cmp" :: rest => (st, (handleCmp st rest).getD "bad-request")
   | "idmap" :: rest => (handleIdMap st rest).getD (st, "bad-request")
   | "axes" :: rest => (st, (handleAxes rest).getD "bad-request")
+  | "ser" :: rest => (st, (handleSer st rest).getD "bad-request")
   | _ => (st, "bad-request")
 
 structure MState where
